@@ -300,8 +300,12 @@ func (e *Equation) appendValue(buf []byte, v any) []byte {
 		buf = AppendString(buf, tv, '\'')
 	case int64:
 		buf = append(buf, strconv.FormatInt(tv, 10)...)
+	case int:
+		buf = append(buf, strconv.FormatInt(int64(tv), 10)...)
 	case float64:
 		buf = append(buf, strconv.FormatFloat(tv, 'g', -1, 64)...)
+	case float32:
+		buf = append(buf, strconv.FormatFloat(float64(tv), 'g', -1, 32)...)
 	case bool:
 		if tv {
 			buf = append(buf, "true"...)
